@@ -317,7 +317,10 @@ def judge(chk, adv, mark, wire_before, own, label, seqnames, state):
         # a refused transfer is over: nothing of it may be written after the refusal was processed
         fed_at = None
         for i2, (who2, ev2, _o2) in enumerate(sim.log):
-            if who2 == x.name and ev2.get('e') == 'rx' and ev2.get('data', '').startswith('03'):
+            # the read which carries the refusal OF TRANSFER 2 (XFER_REFUSE: type 03, reason, 8-octet transfer id) —
+            # an earlier refusal of some other id says nothing about transfer 2
+            d2 = ev2.get('data', '')
+            if who2 == x.name and ev2.get('e') == 'rx' and d2.startswith('03') and d2[4:20] == '%016x' % 2:
                 fed_at = i2
                 break
         if fed_at is not None:
